@@ -108,6 +108,18 @@ HISTORY = {
     'C13r3-B': ('missed', 'R-decode-contained extended: every raising step on data derived from the payload is a decode step (tuple unpacking may raise)'),
     'C17r3-A': ('missed', 'new rule R-enumeration-siblings'),
     'C17r3-B': ('caught', 'R-payload-complete (snapshot position) existed'),
+    'C14r3-A': ('missed', 'R-drop-teardown extended: dropNode removes the key under which addNode filed the node'),
+    'C14r3-B': ('analysis-error', 'R-readonly-id-unique: without a counter, a read-only identity built from something that can repeat is a violation'),
+    'C15r3-A': ('missed', 'new rule R-heap-discipline'),
+    'C15r3-B': ('caught', 'R-version-pairing existed'),
+    'C16r3-A': ('missed', 'R-lock-guards extended: pop() on the lock table is a deletion too'),
+    'C16r3-B': ('caught', 'R-late-acquire (path form) existed'),
+    'C18r3-A': ('missed', 'R-sender-total extended: the per-node loop of a send round is not left from inside; listed under C18'),
+    'C18r3-B': ('caught', 'R-request-id-unique existed'),
+    'C19r3-A': ('caught', 'R-disposition (put_nowait order) existed; R-queue-locked now reports a queue without a lock instead of an analysis error'),
+    'C19r3-B': ('caught', 'R-success-guard existed'),
+    'C20r3-A': ('caught', 'R-response-time-writes / R-owners-liveness existed'),
+    'C20r3-B': ('caught', 'R-match-writes (reset on election) existed'),
 }
 
 
